@@ -120,3 +120,32 @@ def check(case):
     nt = perm != list(range(n)) and n >= 3 and oracle.has_gap(r1)
     return engine.ok(nt, cl, {"n": n, "names": names[:3], "seqs": [s[:40] for s in seqs[:3]], "perm": perm[:10], "cfg": cfg,
                               "entry": case["entry"]})
+
+
+# ------------------------------------------------------------------ enumerated size sweep
+
+def extra(tier, seed, stats):
+    from concurrent.futures import ThreadPoolExecutor
+    from vlib import sweeps
+    cases_ = []
+    for n in sweeps.count_sweep(tier == "quick"):
+        kind = "dna" if n % 2 else "protein"
+        # equal lengths (substitutions only) so that the name tie-break is what orders the sequences
+        base = sweeps.family(n, 10 + n % 9, kind, salt=seed, indel=0.0)
+        L = min(len(x) for x in base)
+        seqs = [x[:L] for x in base]
+        names = ["q%d" % ((i * 37) % n) for i in range(n)] if n % 3 else ["r%03d" % i for i in range(n)]
+        if len(set(names)) != n:
+            names = ["u%d" % i for i in range(n)]
+        perm = list(range(n))[::-1] if n % 2 else list(range(n))[n // 2:] + list(range(n))[:n // 2]
+        cases_.append({"names": names, "seqs": seqs, "perm": perm, "cfg": {"type": 5, "threads": 1 + n % 3, "gpo": -1.0, "gpe": -1.0, "tgpe": -1.0},
+                       "entry": "lib", "shape": "sweep_n"})
+    with ThreadPoolExecutor(max_workers=12) as ex:
+        res = list(ex.map(check, cases_))
+    out = []
+    for c, r in zip(cases_, res):
+        stats.record(c, r)
+        if r["status"] == "violation":
+            out.append({"case": c, "detail": r["detail"], "kind": r.get("kind")})
+    stats.extra["sweep"] = "every sequence count of the count sweep (vlib/sweeps.py) with equal-length sequences, reversed / rotated order"
+    return out
